@@ -59,14 +59,14 @@ func addNumbers(n0, n1 slip.Object) slip.Object {
 		n1 = t0 + n1.(slip.DoubleFloat)
 	case *slip.LongFloat:
 		syncFloatPrec(t0, n1.(*slip.LongFloat))
-		n1 = (*slip.LongFloat)(((*big.Float)(n1.(*slip.LongFloat))).Add(
-			(*big.Float)(n1.(*slip.LongFloat)),
-			(*big.Float)(t0)),
-		)
+		var z big.Float
+		n1 = (*slip.LongFloat)(z.Add((*big.Float)(n1.(*slip.LongFloat)), (*big.Float)(t0)))
 	case *slip.Bignum:
-		n1 = (*slip.Bignum)(((*big.Int)(n1.(*slip.Bignum))).Add((*big.Int)(n1.(*slip.Bignum)), (*big.Int)(t0)))
+		var z big.Int
+		n1 = (*slip.Bignum)(z.Add((*big.Int)(n1.(*slip.Bignum)), (*big.Int)(t0)))
 	case *slip.Ratio:
-		n1 = (*slip.Ratio)(((*big.Rat)(n1.(*slip.Ratio))).Add((*big.Rat)(n1.(*slip.Ratio)), (*big.Rat)(t0)))
+		var z big.Rat
+		n1 = (*slip.Ratio)(z.Add((*big.Rat)(n1.(*slip.Ratio)), (*big.Rat)(t0)))
 	case slip.Complex:
 		n1 = slip.Complex(complex128(n1.(slip.Complex)) + complex128(t0))
 	}
